@@ -228,6 +228,15 @@ def run_case(ctx, col, case):
         model.context_revert(snap)
         kinds_used.append("context-exit")
         st["synced"] = False
+        if g.distance_mode.is_relative and rng.random() < 0.7:
+            # relative moves straight after the exit, from the very position of the last move made inside
+            # the block and before any re-synchronising absolute move: each word must be the linear image
+            # of the requested displacement under the transform that is back in force
+            for _ in range(rng.randint(1, 2)):
+                kw = {a: rng.uniform(-10, 10) for a in "xyz" if rng.random() < 0.6} or {"x": 1.5}
+                col.count("relative_moves_right_after_context_exit")
+                if not do_call("move", (), kw, requested={a.upper(): v for a, v in kw.items()}):
+                    return False
         return sync()
 
     for _ in range(rng.randint(2, 4)):
